@@ -143,7 +143,8 @@ package sweep
 //@   props C18
 //@   bounds-safe
 //@   requires 0 <= maxFeeRate && 0 <= f.FeeRate && f.FeeRate <= 1<<40
-//@   ensures  result1 == nil ==> result0 >= ret(RelayFeePerKW) || result0 == maxFeeRate
+//@   // the rate a sweep starts at is never below the relay floor - also when it is clamped to the cap (finding F32)
+//@   ensures  result1 == nil ==> result0 >= ret(RelayFeePerKW)
 //@   ensures  result1 == nil && maxFeeRate != 0 ==> result0 <= maxFeeRate
 //@   ensures  result1 == nil ==> 0 <= result0 && result0 <= 1<<40
 //@   ensures  result1 == nil ==> result0 == min(ite(maxFeeRate != 0, maxFeeRate, result0), result0)
@@ -164,6 +165,9 @@ package sweep
 //@            wfAll(result0.startingFeeRate, result0.endingFeeRate, result0.deltaFeeRate, result0.width, result0.currentFeeRate, result0.position)
 //@   ensures  result1 == nil ==> result0.startingFeeRate <= maxFeeRate && result0.currentFeeRate == result0.startingFeeRate && result0.position == 0
 //@   ensures  result1 == nil && confTarget <= 1 ==> result0.currentFeeRate == maxFeeRate
+//@   // with an immediate deadline the cap is offered at once: the relay floor has to be consulted there as well (finding F32, second
+//@   // site, known: the cap is used unchecked)
+//@   site return nil nth 0 as immediate-deadline-consults-the-relay-floor: assert called(RelayFeePerKW)
 //@   ensures  result1 == nil && confTarget > 1 ==> result0.width == confTarget - 1
 //@   ensures  result1 == nil && startingFeeRate.isSome && confTarget > 1 ==> result0.startingFeeRate == startingFeeRate.some
 //@   nowrap
